@@ -269,7 +269,7 @@ fn size_expect(bad: bool) -> Expect {
     }
 }
 
-fn poke_lru<E: caches::OnEvictCallback, S: std::hash::BuildHasher>(c: &mut RawLRU<u32, u32, E, S>) -> Result<(), String> {
+fn poke_lru<E: caches::OnEvictCallback + Clone, S: std::hash::BuildHasher + Clone>(c: &mut RawLRU<u32, u32, E, S>) -> Result<(), String> {
     use caches::ResizableCache;
     poke(c)?;
     guarded(|| {
@@ -294,6 +294,19 @@ fn poke_lru<E: caches::OnEvictCallback, S: std::hash::BuildHasher>(c: &mut RawLR
         c.purge();
         c.remove_lru();
         let _ = format!("{:?}", c);
+        // "unbounded": a huge capacity must not be allocated up front anywhere
+        c.resize(usize::MAX);
+        for k in 0..5u32 {
+            c.put(k, k);
+        }
+        let d = c.clone();
+        if d.len() != c.len() {
+            panic!("clone of a cache with a huge capacity has {} entries, the original {}", d.len(), c.len());
+        }
+        drop(d);
+        c.resize(usize::MAX - 1);
+        c.get(&1);
+        c.resize(3);
     })
 }
 
@@ -345,6 +358,11 @@ pub fn grid(out: &mut ShardOut) {
         g.case("RawLRU::from_iter(filter: size_hint lower bound 0)", format!("len {}", n), cls, Expect::Ok, || Ok(it.into_iter().filter(|_| true).collect::<RawLRU<u32, u32>>()), chk);
         let it = items.clone();
         g.case("RawLRU::from_iter(exact)", format!("len {}", n), cls, Expect::Ok, || Ok(it.into_iter().collect::<RawLRU<u32, u32>>()), chk);
+        // adaptor chains whose size_hint is far from the truth in either direction
+        let nn = n as u64;
+        g.case("RawLRU::from_iter(take_while over a huge range: upper bound usize::MAX)", format!("len {}", n), cls, Expect::Ok, || Ok((0..u64::MAX).map(|i| (i as u32, i as u32)).take_while(move |(i, _)| (*i as u64) < nn).collect::<RawLRU<u32, u32>>()), chk);
+        g.case("RawLRU::from_iter(unbounded range .take(n))", format!("len {}", n), cls, Expect::Ok, || Ok((0u32..).map(|i| (i, i)).take(n).collect::<RawLRU<u32, u32>>()), chk);
+        g.case("RawLRU::from_iter(flat_map: no upper bound)", format!("len {}", n), cls, Expect::Ok, || Ok((0..n as u32).flat_map(|i| std::iter::once((i, i))).collect::<RawLRU<u32, u32>>()), chk);
     }
     g.case("RawLRU::from([..; 0])", "len 0".into(), "0", Expect::Ok, || Ok(RawLRU::<u32, u32>::from([(0u32, 0u32); 0])), |c| poke_lru(c));
     g.case("RawLRU::from([..; 3])", "len 3".into(), "small", Expect::Ok, || Ok(RawLRU::<u32, u32>::from([(0u32, 0u32), (1, 1), (2, 2)])), |c| poke_lru(c));
